@@ -29,17 +29,17 @@ ID = 'C17'
 
 MANIFEST = dict(
     technique='explicit-state search over crash points: every write position of every reachable output-tree state is a kill point for the real parse_folder.main() (in-process fault injection at open/imwrite), up to k successive crashes, x output subsets x page-id sets; oracle = uninterrupted run',
-    text='Bounded exhaustive fault enumeration: for each configuration the state graph of output trees is explored breadth-first; in every reachable state the real tool is run with a kill injected before each of its writes (and once to completion), up to 2 (quick, full configuration; 1 for the others) / 3 (thorough) successive crashes; from every reached state an uninterrupted resume must end with exactly the files of an uninterrupted run, return normally, and not re-process pages that were already complete. Configurations: 8 (quick) / all 31 (thorough) subsets of {xml, render, logits, alto, lines} x 4 page-id sets (plain, dotted, containing ".xml." / ".jpg.").',
+    text='Bounded exhaustive fault enumeration: for each configuration the state graph of output trees is explored breadth-first; in every reachable state the real tool is run with a kill injected before each of its writes (and once to completion), up to 2 (quick, 2 pages) / 3 (thorough, 3 pages incl. an empty one) successive crashes; from every reached state an uninterrupted resume must end with exactly the files of an uninterrupted run, return normally, and not re-process pages that were already complete. Configurations: all 31 non-empty subsets of {xml, render, logits, alto, lines} x 4 page-id sets (plain, dotted, containing ".xml." / ".jpg.").',
     note='Kills happen between writes (no torn files); 2 pages; lmdb line output not covered; runs are in-process (the tool\'s own argument parsing, parser construction and write path are the real ones).',
     ref='3/C17')
 
 KINDS = ['xml', 'render', 'logits', 'alto', 'lines']
-ID_SETS = [['p1', 'p2'], ['a', 'a.b'], ['x', 'x.xml.y'], ['scan', 'scan.jpg.v2']]
+ID_SETS = [['p1', 'p2', 'p3'], ['a', 'a.b', 'a.b.c'], ['x', 'x.xml.y', 'x.xml'], ['scan', 'scan.jpg.v2', 'scan.jpg']]
 QUICK_SUBSETS = [[0, 1, 2, 3, 4], [0], [0, 1], [0, 2], [0, 3], [0, 4], [2, 3], [4]]
-BOUNDS = {'quick': dict(crashes_full=2, crashes_other=1), 'thorough': dict(crashes_full=3, crashes_other=3)}
+BOUNDS = {'quick': dict(crashes_full=2, crashes_other=2, pages=2), 'thorough': dict(crashes_full=3, crashes_other=3, pages=3)}
 BOUNDS['replay'] = BOUNDS['quick']
 TMP = '/verif/.cache/tmp'
-PAGE_LINES = [[(10, 8, ['a', '_', 'b', 'ab', 'c']), (30, 20, ['ba', '_', 'bc', 'bc', 'a'])], [(12, 10, ['ab', 'ab', '_', 'ba'])]]
+PAGE_LINES = [[(10, 8, ['a', '_', 'b', 'ab', 'c']), (30, 20, ['ba', '_', 'bc', 'bc', 'a'])], [(12, 10, ['ab', 'ab', '_', 'ba'])], []]
 
 
 class Kill(BaseException):
@@ -56,16 +56,14 @@ def setup(tier):
 
 
 def subsets(tier):
-    if tier == 'thorough':
-        return [list(s) for r in range(1, 6) for s in itertools.combinations(range(5), r)]
-    return QUICK_SUBSETS
+    return [list(s) for r in range(1, 6) for s in itertools.combinations(range(5), r)]
 
 
 def shards(tier):
     out = []
     for si, sub in enumerate(subsets(tier)):
         for ii in range(len(ID_SETS)):
-            out.append({'subset': sub, 'ids': ii})
+            out.append({'subset': sub, 'ids': ii, 'pages': BOUNDS[tier]['pages']})
     # biggest state graphs first
     out.sort(key=lambda s: -len(s['subset']))
     return out
@@ -73,10 +71,10 @@ def shards(tier):
 
 # ------------------------------------------------------------------ the world
 class World:
-    def __init__(self, subset, ids_i, tag):
+    def __init__(self, subset, ids_i, tag, npages=2):
         import cv2
         from mc import pipeline
-        self.subset, self.ids = subset, ID_SETS[ids_i]
+        self.subset, self.ids = subset, ID_SETS[ids_i][:npages]
         self.root = os.path.join(TMP, f'c17-{os.getpid()}-{tag}')
         shutil.rmtree(self.root, ignore_errors=True)
         os.makedirs(os.path.join(self.root, 'img'))
@@ -253,7 +251,7 @@ def explore(shard, ctx, tier, only_hist=None):
     b = BOUNDS[tier]
     full = len(shard['subset']) == 5
     depth = b['crashes_full'] if full else b['crashes_other']
-    world = World(shard['subset'], shard['ids'], 'w')
+    world = World(shard['subset'], shard['ids'], 'w', npages=shard.get('pages', 2))
     try:
         r0 = world.run(None)
         ctx.executed()
@@ -320,7 +318,7 @@ def run_shard(shard, ctx, tier):
 
 
 def check_case(case, ctx):
-    explore({'subset': case['subset'], 'ids': case['ids']}, ctx, 'replay', only_hist=case['hist'])
+    explore({'subset': case['subset'], 'ids': case['ids'], 'pages': case.get('pages', 2)}, ctx, 'replay', only_hist=case['hist'])
 
 
 def describe(tier):
